@@ -141,6 +141,14 @@ char *verif_strdup(const char *s);
                            g.last_fault == __CPROVER_loop_entry(g.last_fault) && \
                            g.err >= 0 && g.err < 134 && g.os_calls >= __CPROVER_loop_entry(g.os_calls)) \
   __CPROVER_decreases(max_fd + 1 - (long) i)
+/* reproc_drain: the text of the invariant (VERIF_DRAIN_INV, over the harness's
+   sink-protocol monitor) lives in harness/h_drain.c; no variant: termination of
+   drain depends on the child */
+#ifdef VERIF_DRAIN_INV
+#define REPROC_VERIF_LOOP_drain                                                \
+  __CPROVER_assigns(r, __CPROVER_object_whole(buffer), __CPROVER_object_whole(process), g, verif_mon) \
+  __CPROVER_loop_invariant(VERIF_DRAIN_INV)
+#endif
 #endif
 #ifndef REPROC_VERIF_LOOP_setup_input
 #define REPROC_VERIF_LOOP_setup_input
